@@ -5571,7 +5571,7 @@ class CodegenCtx:
         else:
             bytes_value = value
         for i in bytes_value:
-            if chr(i) in ["\\", '"']:
+            if chr(i) in ["\\", '"', "?"]:  # (? is escaped so that no trigraph can form)
                 result += "\\" + chr(i)
             elif not (32 <= i < 127):
                 result += "\\{:03o}".format(i)  # octal: unlike \x, never swallows a following hex digit
